@@ -6,7 +6,7 @@
    layouts, all declaration lists: no size bound. *)
 From Coq Require Import List NArith ZArith Bool Permutation Sorting.Sorted.
 Import ListNotations.
-From V Require Import Base.Prelude Model.C23 Proofs.C23.
+From V Require Import Base.Prelude Model.C23 Proofs.C23 Proofs.C23Lines.
 
 Theorem C23_isort_is_a_sorter : sorter_ok isort.
 Proof. exact isort_ok. Qed.
@@ -124,6 +124,26 @@ Theorem C23_runs_of_original_layout_refuted :
     map sid out = [3; 5; 4]%nat /\ map (map sid) (groups_in lines sp) = [[0; 1; 2; 3]; [4]; [5]]%nat.
 Proof. exact later_runs_witness. Qed.
 
+(* ... and what DOES hold: when, in every processed block, each spec starts on its own line (lines
+   strictly increasing along the block), the closing parenthesis is on a later line and the blocks
+   follow each other (file_layout; the line fields of the records are the lines of the table up to a
+   uniform shift k), then SortImports never panics (every MergeLine call is in range, for every
+   admissible sort) and returns exactly the specs of the layout-free functions, i.e. the sorted
+   runs of the ORIGINAL layout (C23_runs_are_line_groups, C23_block_is_sorted_runs apply).
+   Not proved (covered by the differential run only): that the groups the PRINTER shows are those runs. *)
+Theorem C23_one_spec_per_line_total_and_layout_free : forall srt, sorter_ok srt ->
+  forall ds lines k lo, tab_ok lines -> file_layout lines k lo ds ->
+  exists ds' lines', sort_imports_m srt lines ds = Ok (ds', lines') /\
+                     sort_imports srt (map to_decl ds) = Ok (map to_decl ds').
+Proof. exact sort_imports_m_ok. Qed.
+
+(* MergeLine, as modelled, is what the theorem above rests on: in a sorted table, merging line L
+   moves every position on a later line up by one and leaves the others *)
+Theorem C23_merge_line_effect : forall lines L, tab_ok lines -> (1 <= L < zlen lines)%Z ->
+  exists lines', merge_line lines L = Ok lines' /\ tab_ok lines' /\ zlen lines' = (zlen lines - 1)%Z /\
+    forall q, line_at lines' q = if (line_at lines q >? L)%Z then (line_at lines q - 1)%Z else line_at lines q.
+Proof. exact merge_ok. Qed.
+
 (* non-vacuity:  import ( "b" ; "a" // x ; "a" ; x "a" ;; "z" ; "y" )  on lines 2,3,4,5,7,8 *)
 Definition ex_block : list spec :=
   [mkSpec 0 [] [98%N] false [] 10 13 2 2; mkSpec 1 [] [97%N] true [120%N;10%N] 15 18 3 3;
@@ -140,6 +160,23 @@ Proof. vm_compute. reflexivity. Qed.
 Example C23_example_after_other_untouched :
   sort_imports isort [OtherDecl; ImportDecl true ex_block] = Ok [OtherDecl; ImportDecl true ex_block].
 Proof. vm_compute. reflexivity. Qed.
+(* the hypothesis of C23_one_spec_per_line_total_and_layout_free is satisfiable: the block above in its
+   line table (line starts 0 9 14 24 29 36 37 42 47, closing parenthesis at offset 48 on line 9) *)
+Definition ex_lines : list Z := [0; 9; 14; 24; 29; 36; 37; 42; 47]%Z.
+Example C23_example_layout : tab_ok ex_lines /\ file_layout ex_lines 0 0 [LImport true 48 ex_block; LOther].
+Proof.
+  split; [unfold tab_ok; repeat constructor|].
+  simpl. repeat split; try exact I;
+    try (destruct H as [<-|[<-|[<-|[<-|[<-|[<-|[]]]]]]]; vm_compute; (reflexivity || discriminate)).
+  - unfold incr. repeat constructor; vm_compute; reflexivity.
+  - vm_compute; discriminate.
+Qed.
+Example C23_example_lines_run :
+  exists lines', sort_imports_lines_exec ex_lines [LImport true 48 ex_block; LOther] =
+    Ok ([LImport true 48 [mkSpec 1 [] [97%N] true [120%N;10%N] 10 13 2 2; mkSpec 3 [120%N] [97%N] false [] 15 18 3 3;
+                          mkSpec 0 [] [98%N] false [] 25 28 4 4;
+                          mkSpec 5 [] [121%N] false [] 38 41 7 7; mkSpec 4 [] [122%N] false [] 43 46 8 8]; LOther], lines').
+Proof. vm_compute. eexists. reflexivity. Qed.
 Example C23_example_reassign_can_panic : reassign [] ex_block = Panic.
 Proof. vm_compute. reflexivity. Qed.
 
@@ -161,3 +198,5 @@ Print Assumptions C23_lines_spec_atomic.
 Print Assumptions C23_groups_stay_sorted_refuted.
 Print Assumptions C23_no_panic_refuted.
 Print Assumptions C23_runs_of_original_layout_refuted.
+Print Assumptions C23_one_spec_per_line_total_and_layout_free.
+Print Assumptions C23_merge_line_effect.
